@@ -29,6 +29,7 @@ type c17Case struct {
 	Via   string `json:"via"`    // lib, cli
 	Rep   int    `json:"rep,omitempty"`
 	Big   bool   `json:"big,omitempty"` // slice size 96 and larger files, so that the goroutine option really splits the work
+	Dup   string `json:"dup,omitempty"` // the first input is listed a second time (at the end), spelled in this style
 	Stale int    `json:"stale,omitempty"` // the set directory already holds output files: 1 = longer garbage under the same names, 2 = shorter, 3 = unrelated text; 4 = a real earlier Create over the same inputs with ONE block; 5 = a real earlier identical Create whose recovery files were then deleted / corrupted
 }
 
@@ -175,6 +176,9 @@ func c17CreateIn(c *c17Case, seed int64, r *core.Rec, stale map[string][]byte) (
 	for _, a := range abs {
 		args = append(args, c17Spell(c.Spell, cwd, a))
 	}
+	if c.Dup != "" {
+		args = append(args, c17Spell(c.Dup, cwd, abs[0]))
+	}
 	var err error
 	if c.Via == "cli" {
 		bin := os.Getenv("VERIF_PAR_BIN")
@@ -225,8 +229,52 @@ func tailOf(s string, n int) string {
 
 var c17Base = map[string]map[string][]byte{}
 
+// c17RunDup: an input listed twice. Whatever Create does with it (error, protect it twice, ignore the repeat), the
+// outcome must not depend on how the two mentions are spelled.
+var c17DupBase = map[string]*c17DupRes{}
+
+type c17DupRes struct {
+	err error
+	out map[string][]byte
+}
+
+func c17RunDup(c *c17Case, r *core.Rec) {
+	key := fmt.Sprintf("%s/%d", c.Fmt, c.N)
+	base := c17DupBase[key]
+	if base == nil {
+		b := &c17Case{Fmt: c.Fmt, N: c.N, G: 1, Cwd: "set", Spell: "rel", Via: "lib", Dup: "rel"}
+		out, err := c17Create(b, r.Seed, r)
+		base = &c17DupRes{err, out}
+		c17DupBase[key] = base
+	}
+	got, err := c17Create(c, r.Seed, r)
+	r.AddStates(1)
+	r.Outcome(fmt.Sprintf("dup %s %d err=%v files=%d", c.Fmt, c.N, err != nil, len(got)))
+	if (err != nil) != (base.err != nil) {
+		r.Violatef("duplicate-input-outcome-depends-on-spelling", "%+v: Create returned %v, but with both mentions spelled alike (relative, from the set directory) it returned %v", *c, err, base.err)
+		return
+	}
+	if err == nil {
+		if len(got) != len(base.out) {
+			r.Violatef("create-file-names-vary", "%+v wrote %d files, the same list spelled alike %d", *c, len(got), len(base.out))
+			return
+		}
+		for n, b := range got {
+			if !bytes.Equal(b, base.out[n]) {
+				r.Violatef("create-output-varies", "%+v: %s differs from the run with both mentions spelled alike", *c, n)
+				return
+			}
+		}
+	}
+	r.NontrivialCase()
+}
+
 func c17Run(ci interface{}, r *core.Rec) {
 	c := ci.(*c17Case)
+	if c.Dup != "" {
+		c17RunDup(c, r)
+		return
+	}
 	key := fmt.Sprintf("%s/%d/%v", c.Fmt, c.N, c.Big)
 	base, ok := c17Base[key]
 	if !ok {
@@ -337,6 +385,18 @@ func c17Gen(g *core.Gen) {
 					}
 				}
 			}
+			// an input listed twice, the two mentions spelled alike or differently
+			for ci, cw := range cwds {
+				for _, sp := range spells {
+					for _, dp := range spells {
+						via := "lib"
+						if (ci+len(sp)+len(dp))%4 == 0 {
+							via = "cli"
+						}
+						g.Emit(&c17Case{Fmt: f, N: n, G: 1, Cwd: cw, Spell: sp, Via: via, Dup: dp})
+					}
+				}
+			}
 			for rep := 1; rep <= 3; rep++ {
 				g.Emit(&c17Case{Fmt: f, N: n, G: 1, Cwd: "set", Spell: "rel", Via: "lib", Rep: rep})
 				g.Emit(&c17Case{Fmt: f, N: n, G: 1, Cwd: "set", Spell: "rel", Via: "cli", Rep: rep})
@@ -349,7 +409,7 @@ func init() {
 	core.Register(&core.Prop{
 		ID:    "C17",
 		Level: "model_checking",
-		Rule: "full product on real directories: {PAR2, PAR1} x 1-4 files (PAR2 names in sub-directories) x EVERY permutation of the input list (PAR2) x goroutines 1..8 x working directory {set directory, its parent, an unrelated directory} x path spelling {relative, absolute, ./x, d//x, d/../d/x} for the index path and every input, through the library (the worker chdir()s, one scenario at a time) and through the built par command (g in {1,3}); the same for a set with slice size 96 and multi-slice files x goroutines 1..16 (so that the goroutine option really partitions the shards); repeated runs. " +
+		Rule: "full product on real directories: {PAR2, PAR1} x 1-4 files (PAR2 names in sub-directories) x EVERY permutation of the input list (PAR2) x goroutines 1..8 x working directory {set directory, its parent, an unrelated directory} x path spelling {relative, absolute, ./x, d//x, d/../d/x} for the index path and every input, through the library (the worker chdir()s, one scenario at a time) and through the built par command (g in {1,3}); the same for a set with slice size 96 and multi-slice files x goroutines 1..16 (so that the goroutine option really partitions the shards); repeated runs; an input listed twice, for every pair of spellings of its two mentions x working directory (whatever Create does with a repeated input, the outcome - error or bytes - must equal that of the list with both mentions spelled alike). " +
 			"Oracle: the set of files written and every byte equal the baseline run (set directory, relative paths, listed order, g=1). non-trivial = any variation differs from the baseline configuration",
 		Assumptions: []string{"file contents, names relative to the index, slice size and block count are held fixed; everything else varies"},
 		NewCase:     func() interface{} { return &c17Case{} },
